@@ -48,9 +48,15 @@ func VH_C18_query() {
 	vx.Assume(vPlain(v))
 	hasDef := vx.Bool()
 	def := vx.String(1)
+	// the parameter name may need escaping on the wire (ids[] => ids%5B%5D, "first name" => first+name)
+	names := []string{"q", "ids[]", "first name", "a/b"}
+	qname := names[vx.ParamInt("name")%len(names)]
+	if vx.ParamInt("name") < 0 {
+		qname = names[vx.Choice(len(names))]
+	}
 	raw := "other=1"
 	if present {
-		raw = "q=" + v + "&other=1"
+		raw = url.QueryEscape(qname) + "=" + v + "&other=1"
 	}
 	req := &http.Request{Method: "GET", URL: &url.URL{Path: "/", RawQuery: raw}, Header: http.Header{}}
 	c := vCtxFor(req, Params{"p": v}, &vSpy{})
@@ -67,22 +73,22 @@ func VH_C18_query() {
 	}
 	switch vx.Param("acc") {
 	case "query":
-		vx.Assert(c.Query("q", defs...) == want, "C18: Query returns the value when present and non-empty, else the default or \"\"")
+		vx.Assert(c.Query(qname, defs...) == want, "C18: Query returns the value when present and non-empty, else the default or \"\"")
 		vx.Assert(c.Param("p") == v && c.Param("absent") == "", "C18: Param returns the bind value, \"\" when absent")
 	case "trim":
-		vx.Assert(c.QueryTrim("q", defs...) == strings.TrimSpace(want), "C18: QueryTrim is Query with surrounding blanks removed")
+		vx.Assert(c.QueryTrim(qname, defs...) == strings.TrimSpace(want), "C18: QueryTrim is Query with surrounding blanks removed")
 	case "unescape":
 		unesc, err := url.QueryUnescape(want)
 		if err != nil {
 			unesc = ""
 		}
-		vx.Assert(c.QueryUnescape("q", defs...) == unesc, "C18: QueryUnescape decodes the value (zero on malformed text)")
+		vx.Assert(c.QueryUnescape(qname, defs...) == unesc, "C18: QueryUnescape decodes the value (zero on malformed text)")
 	case "strings":
 		var sdefs [][]string
 		if hasDef {
 			sdefs = [][]string{{def}}
 		}
-		got := c.QueryStrings("q", sdefs...)
+		got := c.QueryStrings(qname, sdefs...)
 		if present {
 			vx.Assert(len(got) == 1 && got[0] == v, "C18: QueryStrings returns the values when present")
 		} else if hasDef {
